@@ -5,6 +5,7 @@
 #include <deque>
 
 #include "aj.hpp"
+#include "filtermodel.hpp"
 #include "inspect.hpp"
 #include "refjson.hpp"
 #include "refmsgpack.hpp"
@@ -75,6 +76,9 @@ struct Options {
   char replica = 0;  // 0, 'L' or 'C'
   int instBase = 0;  // allocator instance numbers start here (unique across replicas)
   uint64_t srcSeed = 0;
+  bool useDefaultAlloc = false;  // documents on the library's default allocator (shared by all threads)
+  const ArduinoJson::JsonDocument* shared = nullptr;  // a document every task only reads (conc)
+  Val sharedModel;
   bool skipKnown = true;   // skip operations whose signature is a listed known finding
   std::set<std::string> known;
 };
@@ -160,6 +164,7 @@ class HistSim {
   void opSer(const Op& op, size_t ix);
   void opCmp(const Op& op, size_t ix);
   void opFill(const Op& op, size_t ix);
+  void opShared(const Op& op, size_t ix);
   void opStrict(const Op& op, size_t ix);
 
   // real-side helpers
@@ -202,6 +207,9 @@ class HistSim {
 };
 
 Plan generate(const std::string& mode, uint64_t seed, uint64_t run);
+// (conc) options of a plan, and one execution of it on the calling thread: returns the hash of its observables
+Options optionsOf(const Op& head);
+uint64_t runForObs(const Plan& plan, const Options& o);
 Outcome execute(const Plan& plan);
 
 }  // namespace hist
